@@ -385,7 +385,7 @@ func execC16(spec *RunSpec) *Result {
 	for i, op := range spec.Ops {
 		o := outs[i]
 		h = hashBytes([]byte(fmt.Sprint(h)), o.Out, []byte(o.Err))
-		if o.Panic != "" || o.Overrun {
+		if o.Panic != "" || o.Overrun || o.Deadlock {
 			res.addStat("c11_class_events", 1)
 			noteCrash(res, spec, i, op, o)
 			continue
